@@ -217,8 +217,11 @@ class Ctx:
 
     def coq_eval_many(self, items: list[tuple[str, str]], timeout=900) -> list[tuple[bool, str]]:
         from concurrent.futures import ThreadPoolExecutor
+        t = time.time()
         with ThreadPoolExecutor(max_workers=NPROC) as ex:
-            return list(ex.map(lambda it: self.coq_eval(it[0], it[1], timeout), items))
+            r = list(ex.map(lambda it: self.coq_eval(it[0], it[1], timeout), items))
+        self.log(f"coq_eval_many: {len(items)} files in {time.time() - t:.1f}s")
+        return r
 
     # ------------------------------------------------------------------ implementation runs
     def run_impl(self, script: str, payload, timeout=1800, env=None) -> dict:
@@ -260,8 +263,10 @@ class Ctx:
                 return [{"error": "timeout", "kind": "HarnessTimeout"}] * len(idx[k])
             finally:
                 shutil.rmtree(d, ignore_errors=True)
+        t = time.time()
         with ThreadPoolExecutor(max_workers=n) as ex:
             parts = list(ex.map(one, range(n)))
+        self.log(f"run_impl_jobs {script}: {len(jobs)} jobs in {n} shards, {time.time() - t:.1f}s")
         out = [None] * len(jobs)
         for k in range(n):
             for j, r in zip(idx[k], parts[k]):
